@@ -10,11 +10,33 @@ from .base import Check, Outcome, InvalidScenario
 from . import wcommon as W
 
 
-def gen_wire_ws(rng: random.Random, **kw) -> dict:
+def add_directed_offset_def(rng: random.Random, ws: dict):
+    """A directed skeleton: a variable-length array of sub-byte elements whose shortest and longest representations are
+    byte-aligned (interior ones are not), followed by a nested composite (inter-field padding!) and a sub-byte tail.
+    Returns (root index, definition index) or None."""
+    root = ws["roots"][0]
+    msgs = [d for d in root["defs"] if len(d["secs"]) == 1 and not d.get("dep")]
+    if not msgs or (root["name"] + ".Off").lower() in {d["name"].lower() for d in root["defs"]}:
+        return None
+    b, cap = rng.choice([(1, 8), (2, 4), (4, 2), (12, 2), (3, 8), (1, 16), (7, 8)])
+    m = rng.choice(msgs)
+    ref = ["ref", m["name"], m["ver"][0], m["ver"][1]]
+    items = [["f", ["var", ["u", b, "s"] if b > 1 else ["bool"], cap], "flags"], ["f", rng.choice([ref, ["arr", ref, 2], ["var", ref, 2]]), "inner"], ["f", ["u", rng.choice([4, 5, 1]), "t"], "tail"]]
+    if rng.random() < 0.4:
+        items.insert(0, ["f", rng.choice([["u", 8, "s"], ["u", 3, "s"], ["u", 5, "t"]]), "head"])
+    root["defs"].append({"name": root["name"] + ".Off", "ver": [1, 0], "port": None, "ext": "dsdl", "dep": False,
+                         "secs": [{"union": False, "hdr": None, "items": items, "seal": "sealed"}]})
+    return 0, len(root["defs"]) - 1
+
+
+def gen_wire_ws(rng: random.Random, directed: float = 0.3, **kw) -> dict:
     o = dict(roots=(1, 2), defs=(2, 6), p_ref=0.6, p_service=0.15, p_union=0.35, p_delim=0.45, p_pad=0.25, p_const=0.1, p_doc=0.0,
              p_family=0.15, p_dep=0.05, p_port=0.0, max_fields=5, max_cap=4)
     o.update(kw)
-    return G.gen_workspace(rng, **o)
+    ws = G.gen_workspace(rng, **o)
+    if rng.random() < directed:
+        add_directed_offset_def(rng, ws)
+    return ws
 
 
 def permuted_revision(ws: dict, seed: int):
